@@ -359,6 +359,9 @@ Fixpoint force_loop (fuel : nat) (cx : ctx) (st : pstate) : pstate :=
       match ob with
       | None => st1
       | Some b =>
+          (* every forced byte counts towards the step item limit *)
+          let st1 := set_items st1 (p_items st1 + 1) in
+          if over_limit st1 then st1 else
           if b =? marker then st1 else
           let '(ok, st2) := push_definitive cx st1 b in
           if ok then force_loop f cx st2 else st2
@@ -369,7 +372,7 @@ Definition set_last_force st v := mk_pstate (p_rows st) (p_valid_end st) (p_stac
   (p_bytes st) (p_applied st) (p_row_infos st) (p_top_eos st) (p_trie_stack st) (p_cache st) v
   (p_items st) (p_max_items st) (p_error st) (p_panic st).
 
-Definition force_fuel : nat := 3000.
+Definition force_fuel : nat := N.to_nat 60000.
 
 (* force_bytes(): returns the state; the forced bytes are p_bytes beyond p_applied *)
 Definition force_bytes (cx : ctx) (st : pstate) : pstate :=
